@@ -40,16 +40,29 @@ def check(run: Run) -> None:
     from ..terms import subst  # noqa: F401
 
     fd0, fa0, callp0 = fd, fa, callp
+    from ..lib import unit_loops
+
     ploops = []
-    for g_ in unit(m, fd0):
-        ga_ = ctx.analysis(g_)
-        for lp_ in [n for n in own_nodes(g_) if isinstance(n, ast.For)]:
-            it = strip_sites(ga_.term_of(lp_.iter, ga_.cfg.node_of(lp_)))
-            if contains(it, lambda s: s[0] == "attr" and s[2] == "parameters"):
-                ploops.append((g_, lp_))
+    def _over_parameters(t) -> bool:
+        """the iterable is the signature's parameters, possibly listed, enumerated, filtered or made conditional"""
+        if t[0] in ("phi",):
+            return any(_over_parameters(a) for a in t[1] if a != ("list", ()))
+        if t[0] == "ifexp":
+            return any(_over_parameters(a) for a in (t[2], t[3]) if a != ("list", ()))
+        if t[0] == "app" and t[1][0] == "global" and t[1][1] in ("builtins.list", "builtins.tuple", "builtins.enumerate", "builtins.iter") and len(t[2]) >= 1:
+            return _over_parameters(t[2][0])
+        if t[0] == "comp" and len(t[3]) == 1 and t[2] == ("elem", t[3][0][0]):
+            return _over_parameters(t[3][0][0])
+        if t[0] == "app" and t[1][0] == "attr" and t[1][2] == "values" and not t[2]:
+            return _over_parameters(t[1][1])
+        return t[0] == "attr" and t[2] == "parameters"
+
+    for g_, lp_, it in unit_loops(ctx, m, fd0):  # iterables seen from _fill_in_default_arguments (helper parameters bound)
+        if _over_parameters(it):
+            ploops.append((g_, lp_, it))
     if len(ploops) != 1:
         raise AnalysisError(f"expected one loop over the signature's parameters in _fill_in_default_arguments, found {len(ploops)}")
-    fd, lp = ploops[0]
+    fd, lp, loop_it0 = ploops[0]
     inv = None
     if fd is not fd0:
         sites_ = [(c_, call_, sk_) for c_, call_, sk_ in call_sites_of(m, fd) if c_ is fd0]
@@ -93,7 +106,7 @@ def check(run: Run) -> None:
         incs = [n for n in ast.walk(lp) if isinstance(n, ast.AugAssign) and isinstance(n.target, ast.Name) and n.target.id == idx_name]
         enum_idx = isinstance(lp.iter, ast.Call) and isinstance(lp.iter.func, ast.Name) and lp.iter.func.id == "enumerate" and isinstance(lp.target, ast.Tuple) and isinstance(lp.target.elts[0], ast.Name) and lp.target.elts[0].id == idx_name
         if enum_idx:
-            it_all = strip_sites(fa.term_of(lp.iter.args[0], cfg.node_of(lp)))
+            it_all = loop_it0  # the iterable as seen from _fill_in_default_arguments
             # the enumerated sequence excludes the parameter called "self": a filter condition name != "self" on it
             filt = contains(it_all, lambda s_: s_[0] == "op" and s_[1] in ("Compare:NotEq",) and ("const", "self") in s_[2] and any(x[0] == "attr" and x[2] == "name" for x in s_[2] if isinstance(x, tuple)))
             run.check(filt, "C07.R1", fd, lp, "enumerate runs over the non-self parameters", "slot index comes from enumerate over all parameters including self: off by one for methods")
@@ -138,7 +151,13 @@ def check(run: Run) -> None:
     run.check(ok_r, "C07.R2", fd, raises[0] if raises else lp, "a missing required argument raises ValueError", "omitting a parameter that has no default does not raise ValueError")
     # appends into the positional array
     apps = [c for c in ast.walk(lp) if isinstance(c, ast.Call) and isinstance(c.func, ast.Attribute) and c.func.attr == "append"]
-    run.check(len(apps) == 2, "C07.R2", fd, lp, "keyword value and default are appended to the positional arguments", f"{len(apps)} appends in the filling loop")
+    app_alts = []
+    for c_ in apps:
+        if c_.args and fa.cfg.has_node(c_):
+            app_alts += unphi_terms(strip_sites(fa.term_of(c_.args[0])))
+    has_kw = any(a[0] == "index" and a[2] == 0 and a[1][0] == "app" and a[1][1][0] == "global" and a[1][1][1].endswith("_find_keyword") for a in app_alts)
+    has_dflt = any(a[0] == "app" and a[1][0] == "global" and a[1][1].endswith("as_literal") for a in app_alts)
+    run.check(has_kw and has_dflt and 1 <= len(apps) <= 2, "C07.R2", fd, lp, "keyword value and default are appended to the positional arguments", f"{len(apps)} appends in the filling loop; appended values: {[show(a)[:40] for a in app_alts]}")
     # rebuilt call
     L, faL = fd, fa
     fd, fa, callp = fd0, fa0, callp0
@@ -190,12 +209,28 @@ def check(run: Run) -> None:
                 fpar = c.keywords[-1].arg
             elif len(fd.pos_params) >= 3:
                 fpar = fd.pos_params[2]
+            fpar0 = fpar
             if fpar is not None and inv is not None:
                 fpar = inv.get(("param", fpar), (None, None))[1]
             it = strip_sites(faL.term_of(lp.iter, faL.cfg.node_of(lp)))
             if it[0] == "app" and it[1] == ("global", "builtins.enumerate") and len(it[2]) == 1:
                 it = it[2][0]
+            if fpar is None and fpar0 is not None:
+                # the flag is consumed in _fill_in_default_arguments itself, which hands the helper an empty list when it is false
+                it0 = loop_it0[2][0] if loop_it0[0] == "app" and loop_it0[1] == ("global", "builtins.enumerate") and len(loop_it0[2]) == 1 else loop_it0
+                if it0[0] == "ifexp" and it0[1] == ("param", fpar0) and it0[3] == ("list", ()):
+                    it, fpar = it0, fpar0
             honoured = fpar is not None and (any(a == ("list", ()) for a in unphi_terms(it)) or it[0] == "ifexp") and contains(it, lambda s: s == ("param", fpar)) or (fpar is not None and any(isinstance(a, ast.Name) and a.id == fpar and pol for a, pol in Facts(faL, lp).atoms))
+            if not honoured and fpar is not None and isinstance(lp.iter, ast.Name) and any(a == ("list", ()) for a in unphi_terms(it)):
+                # statement form: parameters = [] is the definition made when the flag is false, the other one when it is true
+                defs_ = [n_ for n_ in own_nodes(L) if isinstance(n_, ast.Assign) and len(n_.targets) == 1 and isinstance(n_.targets[0], ast.Name) and n_.targets[0].id == lp.iter.id]
+                ok_defs = len(defs_) == 2
+                for d_ in defs_:
+                    empty = strip_sites(faL.term_of(d_.value, faL.cfg.node_of(d_))) == ("list", ())
+                    flag_true = any(isinstance(a, ast.Name) and a.id == fpar and pol for a, pol in Facts(faL, d_).atoms)
+                    flag_false = any(isinstance(a, ast.Name) and a.id == fpar and not pol for a, pol in Facts(faL, d_).atoms)
+                    ok_defs = ok_defs and ((empty and flag_false) or (not empty and flag_true))
+                honoured = ok_defs
             # ifexp(flag, params, [])
             if it[0] == "ifexp":
                 honoured = it[1] == ("param", fpar) and it[3] == ("list", ())
@@ -275,6 +310,16 @@ def _check_find_keyword(run: Run, m, mod: str) -> None:
                     c_ = g[3][0][1][0]
                     arg_t = ("attr", ("elem", kws), "arg")
                     ok_match = c_[0] == "op" and c_[1] == "Compare:Eq" and set(c_[2]) == {arg_t, name} and fx.compare_const(sel, [ast.IsNot], None)
+        if not ok_match and val[0] == "attr" and isinstance(s.value, ast.Tuple) and isinstance(s.value.elts[0], ast.Attribute) and isinstance(s.value.elts[0].value, ast.Name):
+            # found = None; for kw in keywords: if kw.arg == name: found = kw; break  ...  return found.value, ..
+            var = s.value.elts[0].value.id
+            defs_ = [n_ for n_ in own_nodes(fk) if isinstance(n_, ast.Assign) and len(n_.targets) == 1 and isinstance(n_.targets[0], ast.Name) and n_.targets[0].id == var]
+            sel = [d_ for d_ in defs_ if not (isinstance(d_.value, ast.Constant) and d_.value.value is None)]
+            if len(sel) == 1 and len(defs_) <= 2 and strip_sites(fa.term_of(sel[0].value, fa.cfg.node_of(sel[0]))) == ("elem", kws):
+                fxd = Facts(fa, sel[0])
+                ok_match = any(pol and isinstance(a, ast.Compare) and isinstance(a.ops[0], ast.Eq) and {ast.unparse(a.left).split(".")[-1], ast.unparse(a.comparators[0]).split(".")[-1]} >= {"arg"} and name in (strip_sites(fa.term_of(a.left)), strip_sites(fa.term_of(a.comparators[0]))) for a, pol in fxd.atoms) and fx.compare_const(strip_sites(fa.term_of(s.value.elts[0].value)), [ast.IsNot], None) or False
+                if not ok_match:
+                    ok_match = any(pol and isinstance(a, ast.Compare) and isinstance(a.ops[0], ast.Eq) and {ast.unparse(a.left).split(".")[-1], ast.unparse(a.comparators[0]).split(".")[-1]} >= {"arg"} and name in (strip_sites(fa.term_of(a.left)), strip_sites(fa.term_of(a.comparators[0]))) for a, pol in fxd.atoms) and any(isinstance(a, ast.Compare) and isinstance(a.left, ast.Name) and a.left.id == var and isinstance(a.comparators[0], ast.Constant) and a.comparators[0].value is None and ((isinstance(a.ops[0], ast.Is) and not pol) or (isinstance(a.ops[0], ast.IsNot) and pol)) for a, pol in fx.atoms)
         run.check(ok_match, "C07.R2", fk, s, "value returned for the keyword whose arg equals the name", "the returned value is not selected by kw.arg == name")
         run.check(val[0] == "attr" and val[2] == "value", "C07.R2", fk, s, "returns the keyword's value", f"returns {show(val)[:60]}")
         # the remainder: all keywords but the matched one
